@@ -1516,7 +1516,7 @@ fn account_front(out: &mut Out, c: &FrontCase, o: &FrontOutcome, what: &str) {
             out.count("front:timeout");
             out.oracle_fail(
                 &fp,
-                &format!("the front end did not return within the watchdog (5 s, confirmed alone with 20 s) on a {}-byte input ({})", c.text.len(), c.origin),
+                &format!("the front end did not return within the watchdog (5 s in a batch, then 60 s alone) on a {}-byte input ({})", c.text.len(), c.origin),
                 replay,
             );
         }
@@ -1539,9 +1539,11 @@ fn account_front(out: &mut Out, c: &FrontCase, o: &FrontOutcome, what: &str) {
     }
 }
 
-/// Re-run a failed case alone (4x watchdog); returns the confirmed outcome.
+/// Re-run a failed case alone (12x watchdog = 60 s: a valid program that imports much of std
+/// needs ~7 s in this debug build on an idle machine, far more under load); returns the
+/// confirmed outcome.
 fn confirm(c: &FrontCase) -> FrontOutcome {
-    let r = run_front_child(&[c.text.clone()], c.prelude, WATCHDOG * 4);
+    let r = run_front_child(&[c.text.clone()], c.prelude, WATCHDOG * 12);
     r.into_iter().next().unwrap_or(FrontOutcome::Crash("nostart".into(), String::new()))
 }
 
@@ -1731,7 +1733,11 @@ fn main() {
             FrontOutcome::Done(_) => account_front(&mut out, c, o, "fuzz"),
             _ => {
                 // a failure is only reported when it reproduces alone
-                let o2 = if confirmed < 12 { confirm(c) } else { o.clone() };
+                if confirmed >= 12 {
+                    out.count("skipped:failure-not-confirmed");
+                    continue;
+                }
+                let o2 = confirm(c);
                 confirmed += 1;
                 match (&o2, o) {
                     (FrontOutcome::Done(_), _) => {
